@@ -95,6 +95,9 @@ func (g *G) stmt() []Stmt {
 	if g.cfg.Recursion && g.fnDep < g.cfg.MaxFnDepth {
 		add(4, g.recursionStmt)
 	}
+	if g.cfg.Closures && g.fnDep < g.cfg.MaxFnDepth && g.inTry == 0 {
+		add(6, g.escapeStmt)
+	}
 	total := 0
 	for _, c := range cs {
 		total += c.w
@@ -722,6 +725,57 @@ func (g *G) recursionStmt() []Stmt {
 		&Assign{Targets: []Expr{Id(name)}, Op: "=", X: fl},
 		use,
 	}
+}
+
+// escapeStmt: a closure created inside a block captures block-local variables
+// and escapes through an outer variable; the block then ends, its slots are
+// re-used by later declarations (or a catch identifier) while the closure lives.
+func (g *G) escapeStmt() []Stmt {
+	g.f("closure-escapes-block")
+	g.uniq++
+	gname := fmt.Sprintf("g%d", g.uniq)
+	out := []Stmt{&VarDecl{Names: []string{gname}, Values: []Expr{nil}}}
+	// the block
+	g.push(false)
+	var body []Stmt
+	nloc := g.intn(1, 3, "esclocals")
+	var locals []string
+	for i := 0; i < nloc; i++ {
+		g.uniq++
+		ln := fmt.Sprintf("b%d", g.uniq)
+		locals = append(locals, ln)
+		body = append(body, &Define{Names: []string{ln}, X: g.intExpr(1)})
+		g.declare(&Var{Name: ln, K: KInt})
+	}
+	var sum Expr = Id(locals[0])
+	for _, ln := range locals[1:] {
+		sum = &Binary{Op: "+", L: sum, R: Id(ln)}
+	}
+	fl := &FuncLit{Body: []Stmt{&Return{Xs: []Expr{sum}}}}
+	if g.chance(40, "escmutator") {
+		// the closure also mutates its captured variable on every call
+		fl = &FuncLit{Body: []Stmt{&Assign{Targets: []Expr{Id(locals[0])}, Op: "+=", X: IntLit(1)}, &Return{Xs: []Expr{sum}}}}
+	}
+	body = append(body, &Assign{Targets: []Expr{Id(gname)}, Op: "=", X: fl})
+	if g.chance(50, "escmutateafter") {
+		body = append(body, &Assign{Targets: []Expr{Id(locals[0])}, Op: "+=", X: IntLit(10)})
+		g.f("assign-captured")
+	}
+	g.pop()
+	switch g.pick(3, "escblock") {
+	case 0:
+		out = append(out, &If{Cond: BoolLit(true), Then: body})
+	case 1:
+		g.uniq++
+		iv := fmt.Sprintf("i%d", g.uniq)
+		out = append(out, &For{Init: &Define{Names: []string{iv}, X: IntLit(0)}, Cond: &Binary{Op: "<", L: Id(iv), R: IntLit(int64(g.intn(1, 3, "esciters")))}, Post: &IncDec{Target: Id(iv), Inc: true}, Body: body})
+	default:
+		g.uniq++
+		out = append(out, &ForIn{Key: "", Value: fmt.Sprintf("fv%d", g.uniq), X: &ArrayLit{Elems: []Expr{IntLit(1), IntLit(2)}}, Body: body})
+	}
+	// from here on the closure is callable (and keeps its dead block's variables alive)
+	g.declare(&Var{Name: gname, K: KFn, NoAssign: true, Sig: &FnSig{NP: 0, Ret: KInt, FnParam: -1}})
+	return out
 }
 
 // --------------------------------------------------------------- top level
